@@ -30,7 +30,7 @@ pub const STUB_ASSUMPTIONS: &[&str] = &[
 pub const CHECKS: &[Check] = &[
     Check {
         id: "C01",
-        scenarios: &[("life", 60_000, 1_500_000), ("pool", 20_000, 400_000), ("teardown", 20_000, 400_000)],
+        scenarios: &[("life", 300_000, 6_000_000), ("pool", 100_000, 2_000_000), ("teardown", 100_000, 2_000_000)],
         owns: &["mem.freed-while-kernel-owns"],
         level: "exploration",
         rule: "one case = one seeded run of a random program (3-40 steps: create/poll/drop operations of ~55 kinds, Ring::poll, kernel consume/complete with drawn outcomes, descriptor and ring drops) against the simulated kernel; distinct = distinct abstract trace hash (sequence of actor/action/op kind/outcome class); non-trivial = at least one fault fired or the kernel acted at a yield point inside a10",
@@ -39,7 +39,7 @@ pub const CHECKS: &[Check] = &[
     },
     Check {
         id: "C02",
-        scenarios: &[("life", 60_000, 1_500_000), ("cq", 40_000, 1_000_000)],
+        scenarios: &[("life", 250_000, 5_000_000), ("cq", 250_000, 5_000_000)],
         owns: &["res."],
         level: "exploration",
         rule: "one case = one seeded run; every output of every future/iterator is compared with the results the simulated kernel scripted for that very submission (attributable values); distinct = distinct abstract trace hash; non-trivial = a fault fired or the kernel acted at a yield point",
@@ -48,7 +48,7 @@ pub const CHECKS: &[Check] = &[
     },
     Check {
         id: "C03",
-        scenarios: &[("life", 40_000, 1_000_000), ("blocked", 40_000, 1_000_000), ("mt-life", 6_000, 150_000)],
+        scenarios: &[("life", 200_000, 4_000_000), ("blocked", 200_000, 4_000_000), ("mt-life", 20_000, 500_000)],
         owns: &["wake."],
         level: "exploration",
         rule: "one case = one seeded run under the strict executor (a task is re-polled only if the waker of its most recent poll fired); after faults stop every task must finish within 6*(tasks+4) rounds of poll-woken-tasks/Ring::poll; distinct = distinct abstract trace hash; non-trivial = fault fired, kernel acted at a yield point or a thread switch happened",
@@ -57,7 +57,7 @@ pub const CHECKS: &[Check] = &[
     },
     Check {
         id: "C04",
-        scenarios: &[("mt-sq", 8_000, 200_000), ("life", 30_000, 600_000)],
+        scenarios: &[("mt-sq", 40_000, 1_000_000), ("life", 150_000, 3_000_000)],
         owns: &["sq."],
         level: "exploration",
         rule: "one case = one seeded run of 2-4 submitter threads (baton scheduler, preemption at every yield point) on rings of 1-4 entries with counters starting at 0, 2^31-k or 2^32-k; the kernel checks every consumed entry against what was published; distinct = distinct abstract trace hash; non-trivial = a thread switch or fault happened",
@@ -66,7 +66,7 @@ pub const CHECKS: &[Check] = &[
     },
     Check {
         id: "C05",
-        scenarios: &[("cq", 60_000, 1_500_000), ("life", 30_000, 600_000)],
+        scenarios: &[("cq", 350_000, 7_000_000), ("life", 150_000, 3_000_000)],
         owns: &["cq."],
         level: "exploration",
         rule: "one case = one seeded run with completion queues of 1-16 entries, counters starting anywhere (incl. 2^32-k), batches split across Ring::poll calls, overflow, SKIP padding and reserved user_data completions; unpublished/released slots are poisoned (guard page); distinct = distinct abstract trace hash; non-trivial = a fault fired",
@@ -75,7 +75,7 @@ pub const CHECKS: &[Check] = &[
     },
     Check {
         id: "C06",
-        scenarios: &[("life", 60_000, 1_500_000)],
+        scenarios: &[("life", 350_000, 7_000_000), ("restart", 150_000, 3_000_000)],
         owns: &["cancel.", "mem.double-free", "mem.leak"],
         level: "exploration",
         rule: "one case = one seeded run; at every drop the submissions made by the drop are inspected (at most one ASYNC_CANCEL aimed at that operation), the allocator detects double frees, and live a10 allocations are counted after everything was dropped; distinct = distinct abstract trace hash; non-trivial = fault fired or kernel acted at a yield point",
@@ -84,7 +84,7 @@ pub const CHECKS: &[Check] = &[
     },
     Check {
         id: "C07",
-        scenarios: &[("fd", 60_000, 1_500_000)],
+        scenarios: &[("fd", 500_000, 10_000_000)],
         owns: &["fd."],
         level: "exploration",
         rule: "one case = one seeded history of descriptor-creating operations, drops and explicit closes (regular and direct, full queue fallback) checked against the kernel's descriptor ledger; distinct = distinct abstract trace hash; non-trivial = a fault fired or kernel acted at a yield point",
@@ -93,7 +93,7 @@ pub const CHECKS: &[Check] = &[
     },
     Check {
         id: "C08",
-        scenarios: &[("pool", 60_000, 1_500_000), ("mt-pool", 6_000, 150_000)],
+        scenarios: &[("pool", 450_000, 9_000_000), ("mt-pool", 20_000, 500_000)],
         owns: &["pool."],
         level: "exploration",
         rule: "one case = one seeded history of pool reads, multishot reads, edits, releases and drops; after every step {kernel window} + {owned by live ReadBufs} partitions the pool; distinct = distinct abstract trace hash; non-trivial = fault fired, kernel acted at a yield point or thread switch",
@@ -102,7 +102,7 @@ pub const CHECKS: &[Check] = &[
     },
     Check {
         id: "C09",
-        scenarios: &[("restart", 60_000, 1_500_000)],
+        scenarios: &[("restart", 500_000, 10_000_000)],
         owns: &["restart."],
         level: "exploration",
         rule: "one case = one seeded run where completions are EINTR/ECANCELED with high probability (also first step of zero-copy sends, end of multishot streams); re-submissions must be byte-identical and the caller sees only the last attempt; distinct = distinct abstract trace hash; non-trivial = an interruption fired",
@@ -111,7 +111,7 @@ pub const CHECKS: &[Check] = &[
     },
     Check {
         id: "C10",
-        scenarios: &[("composite", 80_000, 2_000_000)],
+        scenarios: &[("composite", 600_000, 12_000_000)],
         owns: &["io."],
         level: "exploration",
         rule: "one case = one composite call (write_all/_vectored, send_all/_vectored, read_n/_vectored, recv_n/_vectored; shapes of 1-8 buffers with empty ones, offsets, flags, zero-copy) under a drawn sequence of short counts; the kernel-side stream must equal the input; distinct = distinct abstract trace hash; non-trivial = at least one short transfer",
@@ -120,7 +120,7 @@ pub const CHECKS: &[Check] = &[
     },
     Check {
         id: "C11",
-        scenarios: &[("mt-wake", 10_000, 300_000)],
+        scenarios: &[("mt-wake", 40_000, 1_000_000)],
         owns: &["wakeup."],
         level: "exploration",
         rule: "one case = one seeded interleaving of a poller thread and 1-3 waker threads (baton scheduler) on default, SQPOLL and single-issuer rings; a poll that started after a completed wake() must not block until its timeout; distinct = distinct abstract trace hash; non-trivial = a thread switch happened",
@@ -129,7 +129,7 @@ pub const CHECKS: &[Check] = &[
     },
     Check {
         id: "C12",
-        scenarios: &[("teardown", 60_000, 1_500_000)],
+        scenarios: &[("teardown", 500_000, 10_000_000)],
         owns: &["teardown.", "mem.leak", "mem.double-free"],
         level: "exploration",
         rule: "one case = one seeded object graph (ring, queue clones, descriptors, operations in every state, pools, buffers) dropped in a drawn order; guard pages, mmap ledger, descriptor ledger, registrations and allocator are checked afterwards; distinct = distinct abstract trace hash; non-trivial = fault fired or kernel acted at a yield point",
@@ -138,7 +138,7 @@ pub const CHECKS: &[Check] = &[
     },
     Check {
         id: "C15",
-        scenarios: &[("pool", 60_000, 1_500_000)],
+        scenarios: &[("pool", 500_000, 10_000_000)],
         owns: &["readbuf."],
         level: "exploration",
         rule: "one case = one seeded history including edit sequences on kernel-filled ReadBufs compared call by call with a capacity-bounded Vec<u8> model, with neighbouring slots canaried; distinct = distinct abstract trace hash; non-trivial = at least one edit happened next to a live neighbour",
@@ -147,7 +147,7 @@ pub const CHECKS: &[Check] = &[
     },
     Check {
         id: "C17",
-        scenarios: &[("inotify", 40_000, 1_000_000)],
+        scenarios: &[("inotify", 300_000, 6_000_000)],
         owns: &["notify."],
         level: "exploration",
         rule: "one case = one scripted stream of inotify records batched into reads in a drawn way; yielded events are compared with the script and held events are checked against later buffer reuse; distinct = distinct abstract trace hash; non-trivial = more than one read or a held event",
@@ -156,7 +156,7 @@ pub const CHECKS: &[Check] = &[
     },
     Check {
         id: "C18",
-        scenarios: &[("build", 40_000, 1_000_000)],
+        scenarios: &[("build", 300_000, 6_000_000)],
         owns: &["build."],
         level: "fault_enumeration",
         rule: "one case = one configuration (sizes, clamp, kernel thread, affinity, single issuer, defer taskrun, disabled, attach, direct descriptors) x one fault point (none, setup errno, each required feature missing, mmap 1-3, madvise 1-3, register failure); every fault point is hit; distinct = distinct (configuration class, fault point, outcome) cell",
